@@ -38,7 +38,7 @@ OWN = {
     "C15": ["TimerWhileWaiting", "TimeoutHarmless", "TimeoutAnswers"],
 }
 DEVIATIONS = {
-    "C01": {"DevSilentDeny": ["AnsweredWhenQuiet"], "DevRawResponse": ["WellFormed", "NeverTorn"],
+    "C01": {"DevSilentDeny": ["AnsweredWhenQuiet"], "DevVerbatimRefusal": ["WellFormed"], "DevRawResponse": ["WellFormed", "NeverTorn"],
             "DevNoDispatchedFlag": ["OneResponse", "AtMostOnce"]},
     "C04": {"DevTitanSkipsChain": ["GateC04"]},
     "C07": {"DevNoDispatchedFlag": ["AtMostOnce", "OneResponse"]},
@@ -241,7 +241,7 @@ def random_cfg(rnd):
         if total > 1:
             cuts.add(rnd.randint(1, total - 1))
     cuts.add(total)
-    comps = ["allow", "allow", "allow", "deny53", "deny44", "deny60", "denyNoText", "raise"]
+    comps = ["allow", "allow", "allow", "deny53", "deny44", "deny60", "denyNoText", "denyMalformed", "raise"]
     chain = tuple(rnd.choice(comps) for _ in range(rnd.choice([0, 0, 1, 1, 2, 3, 4])))
     outs = ["ok20", "ok20bytes", "ok20empty", "in10", "ok30", "err51", "cert60", "body51", "metaCRLF", "metaLong",
             "unenc", "status99", "raise", "raiseCRLF"]
